@@ -1630,6 +1630,10 @@ def gen_c14(r, tier="quick"):
         else:
             ops.extend(_setup_ops(r, A, mid))
             ops.extend(gen_observations(r, A, mid, [], 3))
+        if r.random() < 0.12:
+            # one of the adversary's solves dies in a callback (after some iterations)
+            ops.append(["solve", mid, {"method": r.choice(["trust-constr", "trust-constr", "SLSQP", "L-BFGS-B"]), "maxiter": 60,
+                                      "fault": {"site": "cb", "k": r.choice([3, 6, 10, 15, 25]), "exc": r.choice(["ValueError", "KeyboardInterrupt", "MemoryError"])}}])
         live.append(mid)
         if r.random() < 0.25:
             big = tier == "thorough" and r.random() < 0.3
